@@ -590,6 +590,11 @@ class DenseRewardTSPEnv(TSPEnv):
         last_node_loc = gather_by_index(td["locs"], last_node)
         curr_node_loc = gather_by_index(td["locs"], current_node)
         reward = get_distance(last_node_loc, curr_node_loc)[:, None]
+        # nothing has been driven before the first node is chosen (reset leaves current_node = 0)
+        reward = torch.where(td["i"] == 0, torch.zeros_like(reward), reward)
+        # the action that completes the tour also closes it
+        first_node_loc = gather_by_index(td["locs"], first_node)
+        reward = reward + done[:, None] * get_distance(curr_node_loc, first_node_loc)[:, None]
 
         td.update(
             {
